@@ -145,6 +145,9 @@ func runC01(c *Ctx) {
 	if lineAlloc == nil {
 		return
 	}
+	// the frame that fills the line in: ParseLine itself, or the one unexported function it hands the new line
+	// and the text to (a thin-wrapper ParseLine)
+	fpl, fline, fparam := c.parseFrame(pl, lineAlloc, param)
 	storesTo := func(fv *types.Var) []*ssa.Store {
 		var out []*ssa.Store
 		funcInstrs(pl, func(in ssa.Instruction) {
@@ -154,6 +157,15 @@ func runC01(c *Ctx) {
 				}
 			}
 		})
+		if fpl != pl {
+			funcInstrs(fpl, func(in ssa.Instruction) {
+				if s, ok := in.(*ssa.Store); ok {
+					if f2, base := fieldOf(s.Addr); f2 == fv && base == fline {
+						out = append(out, s)
+					}
+				}
+			})
+		}
 		return out
 	}
 	// ---- R2
@@ -181,7 +193,7 @@ func runC01(c *Ctx) {
 				} else if y, ok := bo.Y.(*ssa.Index); ok {
 					idx, k = y, bo.X
 				}
-				if idx != nil && idx.X == ssa.Value(param) {
+				if idx != nil && (idx.X == ssa.Value(param) || idx.X == ssa.Value(fparam)) {
 					if i0, ok := constInt(idx.Index); ok && i0 == 0 {
 						if cv, isC := constInt(k); isC && cv == '@' {
 							guarded = true
@@ -226,7 +238,7 @@ func runC01(c *Ctx) {
 		r.Add("R4", fmt.Sprintf("cmd-store#%d", i+1), c.InstrPos(s), c.FuncKey(s.Parent()), "verb is a constant or upper-cased", ok, why)
 	}
 	// ---- R6
-	c.trailingRule("R6", pl, lineAlloc, param)
+	c.trailingRule("R6", fpl, lineAlloc, fparam)
 
 	// ---- R1 (b): nothing but the replacer transforms a tag between the ';' split and the '=' split
 	for _, fn := range plReach.Order {
@@ -360,12 +372,26 @@ func runC01(c *Ctx) {
 		condsFrom = pf.Via.Block()
 	}
 	okArg, whyArg := false, "ParseLine's argument is not strings.Trim(<read result>, \"\\r\\n\")"
+	// the text of a line read: result 0 of a bufio read, trimmed here; or result 0 of a read helper that trims
+	var textOf ssa.Value = arg
+	trimmedHere := false
 	if tr, ok := arg.(*ssa.Call); ok && calleeName(&tr.Call) == "strings.Trim" {
 		if cut, ok := constString(tr.Call.Args[1]); ok && (cut == "\r\n" || cut == "\n\r") {
-			if ex, ok := tr.Call.Args[0].(*ssa.Extract); ok && ex.Index == 0 {
+			textOf, trimmedHere = tr.Call.Args[0], true
+		}
+	}
+	{
+		{
+			if ex, ok := textOf.(*ssa.Extract); ok && ex.Index == 0 {
 				if rd, ok := ex.Tuple.(*ssa.Call); ok {
 					n := calleeName(&rd.Call)
-					if n == "(*bufio.Reader).ReadString" || n == "(*bufio.Reader).ReadBytes" {
+					isRead := (n == "(*bufio.Reader).ReadString" || n == "(*bufio.Reader).ReadBytes") && trimmedHere
+					if !isRead && !rd.Call.IsInvoke() {
+						if _, trimmed, okH := c.readHelperInfo(rd.Call.StaticCallee()); okH && trimmed != trimmedHere {
+							isRead = true
+						}
+					}
+					if isRead {
 						okArg, whyArg = true, "ParseLine(strings.Trim(ReadString('\\n'), \"\\r\\n\"))"
 						// no branch between the read and the parse other than the error test
 						if helperConds > 0 {
@@ -917,7 +943,6 @@ func runC10(c *Ctx) {
 		})
 	}
 	sort.Slice(badStores, func(i, j int) bool { return badStores[i].Pos() < badStores[j].Pos() })
-	r.Exactly("R2", "stores to the penalty field in the rate limiter", len(badStores), 2)
 	isBadLoad := func(v ssa.Value) bool { fv, _ := loadedField(v); return fv == bad }
 	isLastLoad := func(v ssa.Value) bool { fv, _ := loadedField(v); return fv == last }
 	isNow := func(v ssa.Value) bool {
@@ -938,18 +963,57 @@ func runC10(c *Ctx) {
 		}
 		return false
 	}
+	// two forms: (A) store the sum, then store 0 on the "< 0" edge; (B) compute the sum in a local, clamp it to 0
+	// in a branch, store the result once
 	var upd, floor *ssa.Store
-	for _, s := range badStores {
-		if k, ok := constInt(s.Val); ok && k == 0 {
-			floor = s
-		} else {
-			upd = s
+	var updVal, finalVal ssa.Value
+	var clampIf *ssa.If
+	if len(badStores) == 1 {
+		if ph, isPh := badStores[0].Val.(*ssa.Phi); isPh && len(ph.Edges) == 2 {
+			for i, e := range ph.Edges {
+				if k, ok := constInt(e); ok && k == 0 {
+					other := ph.Edges[1-i]
+					// the zero comes in along an edge taken exactly when the sum is negative
+					pred := ph.Block().Preds[i]
+					conds := append([]Cond{}, CondsAt(pred)...)
+					if cd, okE := edgeCond(pred, ph.Block()); okE {
+						conds = append(conds, cd)
+					}
+					for _, cd := range conds {
+						cd = unwrapNot(cd)
+						if bo, okB := cd.V.(*ssa.BinOp); okB {
+							lt := (bo.Op == token.LSS && bo.X == other && durConst(bo.Y, 0) && cd.True) ||
+								(bo.Op == token.GEQ && bo.X == other && durConst(bo.Y, 0) && !cd.True) ||
+								(bo.Op == token.GTR && durConst(bo.X, 0) && bo.Y == other && cd.True)
+							// ... and the other edge on the opposite outcome of the same test
+							if lt && cd.If != nil && blockDom(cd.If.Block(), ph.Block().Preds[1-i]) {
+								upd, updVal, finalVal, clampIf = badStores[0], other, ph, cd.If
+							}
+						}
+					}
+				}
+			}
+		}
+		if upd == nil {
+			r.Exactly("R2", "stores to the penalty field in the rate limiter", len(badStores), 2)
+		}
+	} else {
+		r.Exactly("R2", "stores to the penalty field in the rate limiter", len(badStores), 2)
+		for _, s := range badStores {
+			if k, ok := constInt(s.Val); ok && k == 0 {
+				floor = s
+			} else {
+				upd = s
+			}
+		}
+		if upd != nil {
+			updVal = upd.Val
 		}
 	}
 	okU, whyU := false, "no update store"
 	if upd != nil {
-		// upd.Val = badLoad + (charge - elapsed)   (any association)
-		pos, neg := linearTermsStop(upd.Val, charge)
+		// updVal = badLoad + (charge - elapsed)   (any association)
+		pos, neg := linearTermsStop(updVal, charge)
 		okU = len(pos) == 2 && len(neg) == 1 && isElapsed(neg[0]) &&
 			((isBadLoad(pos[0]) && pos[1] == charge) || (isBadLoad(pos[1]) && pos[0] == charge))
 		whyU = fmt.Sprintf("update has %d positive and %d negative terms", len(pos), len(neg))
@@ -959,6 +1023,9 @@ func runC10(c *Ctx) {
 	}
 	r.Add("R2", "update", posOf(c, upd), c.FuncKey(rl), "penalty is updated by + charge - elapsed", okU, whyU)
 	okFl, whyFl := false, "no store of 0"
+	if clampIf != nil {
+		okFl, whyFl = true, "the stored penalty is 0 exactly when the sum is < 0 (clamped before the single store)"
+	}
 	if floor != nil && upd != nil {
 		// floor executes exactly on the edge (penalty < 0) evaluated after the update
 		for _, cd := range CondsAt(floor.Block()) {
@@ -1000,7 +1067,14 @@ func runC10(c *Ctx) {
 		// the timestamp must be reset after elapsed was computed (elapsed uses the old value)
 		if okL && upd != nil {
 			for _, s := range lastStores {
-				if !instrDominates(upd, s) {
+				var anchor ssa.Instruction = upd
+				if finalVal != nil {
+					// form B: the sum (which reads the old timestamp) is computed where updVal is defined
+					if in, isIn := updVal.(ssa.Instruction); isIn {
+						anchor = in
+					}
+				}
+				if !instrDominates(anchor, s) {
 					okL, whyL = false, "timestamp reset before the penalty update uses the old timestamp"
 				}
 			}
@@ -1023,6 +1097,7 @@ func runC10(c *Ctx) {
 			if !ok {
 				continue
 			}
+			isBadLoad := func(v ssa.Value) bool { return isBadLoad(v) || (finalVal != nil && v == finalVal) }
 			switch {
 			case bo.Op == token.GTR && isBadLoad(bo.X) && durConst(bo.Y, 10*second):
 				known, over = true, cd.True
@@ -1272,6 +1347,26 @@ func linearTermsStop(v ssa.Value, stop ssa.Value) (pos, neg []ssa.Value) {
 
 // isHybridCharge: v == 2*Second + Duration(chars)*Second/120 (modulo commutativity).
 func (c *Ctx) isHybridCharge(v ssa.Value, chars ssa.Value) (bool, string) {
+	// the formula may live in a pure helper of the line length: judge its single return value there
+	if call, ok := v.(*ssa.Call); ok && !call.Call.IsInvoke() {
+		if h := call.Call.StaticCallee(); h != nil && c.InModuleFn(h) && h.Blocks != nil && len(call.Call.Args) == len(h.Params) {
+			idx := -1
+			for i, a := range call.Call.Args {
+				if a == chars {
+					idx = i
+				}
+			}
+			var rets []*ssa.Return
+			funcInstrs(h, func(in ssa.Instruction) {
+				if rt, isR := in.(*ssa.Return); isR {
+					rets = append(rets, rt)
+				}
+			})
+			if idx >= 0 && len(rets) == 1 && len(rets[0].Results) == 1 {
+				return c.isHybridCharge(rets[0].Results[0], h.Params[idx])
+			}
+		}
+	}
 	pos, neg := linearTerms(v)
 	if len(neg) != 0 || len(pos) != 2 {
 		return false, fmt.Sprintf("charge is a sum of %d positive and %d negative terms, want 2 and 0", len(pos), len(neg))
@@ -1388,7 +1483,61 @@ func (c *Ctx) parserTrailingRule(rule string) {
 		return
 	}
 	r.Funcs[c.FuncKey(pl)] = true
-	c.trailingRule(rule, pl, lineAlloc, pl.Params[0])
+	fpl, _, fparam := c.parseFrame(pl, lineAlloc, pl.Params[0])
+	c.trailingRule(rule, fpl, lineAlloc, fparam)
+}
+
+// parseFrame: the function in which the parsed line is filled in. Normally
+// ParseLine itself; when ParseLine only allocates the line and hands it,
+// together with its text parameter, to one unexported function of the package
+// (called from nowhere else), that function with the corresponding parameters.
+func (c *Ctx) parseFrame(pl *ssa.Function, lineAlloc *ssa.Alloc, param *ssa.Parameter) (*ssa.Function, ssa.Value, *ssa.Parameter) {
+	var hit *ssa.Call
+	n := 0
+	for _, cs := range CallSites(pl) {
+		call, ok := cs.(*ssa.Call)
+		if !ok || call.Call.IsInvoke() {
+			continue
+		}
+		m := call.Call.StaticCallee()
+		if m == nil || !c.InModuleFn(m) || m.Package() != c.Client || (m.Object() != nil && m.Object().Exported()) || addrTaken(m) {
+			continue
+		}
+		hasLine, hasText := false, false
+		for _, a := range call.Call.Args {
+			if a == ssa.Value(lineAlloc) {
+				hasLine = true
+			}
+			if a == ssa.Value(param) {
+				hasText = true
+			}
+		}
+		if hasLine && hasText {
+			hit = call
+			n++
+		}
+	}
+	if n != 1 || len(c.staticCallers(hit.Call.StaticCallee())) != 1 {
+		return pl, lineAlloc, param
+	}
+	m := hit.Call.StaticCallee()
+	var ml ssa.Value
+	var mt *ssa.Parameter
+	for i, a := range hit.Call.Args {
+		if i >= len(m.Params) {
+			break
+		}
+		if a == ssa.Value(lineAlloc) {
+			ml = m.Params[i]
+		}
+		if a == ssa.Value(param) {
+			mt = m.Params[i]
+		}
+	}
+	if ml == nil || mt == nil {
+		return pl, lineAlloc, param
+	}
+	return m, ml, mt
 }
 
 // isCutLike: fn(s, sep string) (before, after string, found bool) with the
